@@ -4,7 +4,9 @@ check("C20", "model_checking",
       "that parses without error and has no builtin call, is parsed, rebuilt, parsed and rebuilt again by the real first generation: "
       "Norm(Parse(Rebuild(Parse(src)))) must equal Norm of the specification's tree (corpus: of the file's own first parse) and the "
       "second rebuilt text must be byte-identical to the first. Replay only (the rebuilder has no internal state worth tracing); "
-      "exhaustive within the bounds.",
+      "exhaustive within the bounds. Also: the cell generator MC_PenneGrammarCells.tla (12 families: lists of 130 / 270 / 1100 items, nests of 130 / 270, the documented "
+      "maxima, 48 expressions x 34 positions, 30 types x 20 positions, 23 statements x 13 positions, names x namespaces, indentation below 0-130 blocks, string "
+      "lengths around 2^7..2^16), long strings around every line width (focus longstr), r copies of derived modules, three systematic layouts.",
       "Trusted: TLC, the grammar specification (as for C16), the renderer and the projection of the first-generation AST. Norm forgets "
       "locations, literal spelling and type suffix (a character literal counts as its integer value), as the property says. Bounds as C16 "
       "(the derivation is shared). Checks of the checker: 2 self-tests, 3 mutations of the rebuilder are caught.",
